@@ -657,6 +657,13 @@ pub(crate) async fn fashare(
     // 3 b) Pi broadcasts decommitment for macs.
     let mut dm_k = broadcast(channel, i, n, "fashare ver", &dmvec).await?;
     dm_k[i] = dmvec;
+    // Every decommitment consists of the check bit followed by one 16-byte MAC per other party.
+    if dm_k
+        .iter()
+        .any(|dmv| dmv.iter().any(|dm| dm.len() != 1 + 16 * (n - 1)))
+    {
+        return Err(Error::InvalidLength);
+    }
 
     // 3 c) Compute bi to determine di_bi and send to all parties.
     let mut bi = [false; RHO];
